@@ -40,22 +40,21 @@ def runOp (j : Json) : J.R Json := do
   let ρ ← build qIO n j
   let a ← autOf (← field j "aut")
   let calls ← arr (← field j "calls")
-  let mut memo : Memo Nat n ℚ := []
+  let mut dict : Rep.PreDict Nat n ℚ := {}
   let mut outs : Array Json := #[]
   for c in calls do
     let keep := (optBool c "keep").getD false
-    let m0 := if keep then memo else []
-    let r := ρ.automatonAccepted a (← natf c "L") ((optBool c "maxlen").getD true)
-      ((optBool c "with_words").getD false) (← optNat c "start") (← optNat c "end") m0
+    let d0 : Rep.PreDict Nat n ℚ := if keep then dict else {}
+    let (r, d1) := ρ.automatonAcceptedD a (← natf c "L") ((optBool c "maxlen").getD true)
+      ((optBool c "with_words").getD false) (← optNat c "start") (← optNat c "end") d0
       ((optBool c "edge_words").getD true)
+    dict := d1
     match r with
-    | .ok (res, m1) =>
-      memo := m1
+    | .ok res =>
       outs := outs.push (Json.mkObj [("ok", outAcc res),
-        ("memo_keys", .arr (m1.map fun kv => Json.arr #[toJson kv.1.1,
+        ("memo_keys", .arr (d1.memo.map fun kv => Json.arr #[toJson kv.1.1,
             match kv.1.2 with | none => .null | some v => toJson v]).toArray)])
     | .error e =>
-      memo := m0
       outs := outs.push (Json.mkObj [("err", .str e)])
   return .arr outs
 
